@@ -1,24 +1,38 @@
 package main
 
-// C19, second sentence: the receive limit is sharp. The real reference server and the real
-// reference client run in-process (RunInReferenceMode), talking over loopback; requests are
-// sized with the real expandRequestData.
+// C19, second sentence: the receive limit is sharp. The real reference server (in reference
+// mode — with the rawResponseRecorder interceptor and the request checks — and in plain mode)
+// and the real reference client (reference mode with the wire-capture transport, and plain)
+// run in-process, talking over loopback; requests are sized with the real expandRequestData.
+// The message under the limit test may sit at any position of the request stream (server
+// side) or of the response stream (client side; there the peer is a small connect-go
+// fixture server of this file, because the reference server echoes the whole response
+// definition in its first response, which is therefore always the largest one).
 
 import (
 	"context"
 	"encoding/json"
+	"errors"
 	"fmt"
 	"io"
+	"net"
+	"net/http"
 	"strings"
 	"sync"
+	"sync/atomic"
 	"time"
 
 	"connectrpc.com/conformance/internal"
 	cc "connectrpc.com/conformance/internal/app/connectconformance"
 	"connectrpc.com/conformance/internal/app/referenceclient"
 	"connectrpc.com/conformance/internal/app/referenceserver"
+	"connectrpc.com/conformance/internal/compression"
 	conformancev1 "connectrpc.com/conformance/internal/gen/proto/go/connectrpc/conformance/v1"
+	"connectrpc.com/conformance/internal/gen/proto/go/connectrpc/conformance/v1/conformancev1connect"
 	"connectrpc.com/conformance/internal/verifharness/gen"
+	"connectrpc.com/connect"
+	"golang.org/x/net/http2"
+	"golang.org/x/net/http2/h2c"
 	"google.golang.org/protobuf/proto"
 	"google.golang.org/protobuf/types/known/anypb"
 )
@@ -27,99 +41,178 @@ func init() {
 	gen.RegisterOp("c19", "sharp", func(c *gen.Ctx, raw json.RawMessage) any {
 		in := gen.Into[c19SharpIn](raw)
 		out := c19Sharp(in)
-		c.E.Count("sharp:" + in.Side + ":" + out.Outcome)
+		c.E.Count("sharp:" + in.Side + ":" + c19Mode(in.Mode) + ":" + in.Stream + ":" + out.Outcome)
 		return out
 	})
 }
 
 type c19SharpIn struct {
-	Side        string `json:"side"`        // server | client
-	Protocol    int32  `json:"protocol"`    // 1 connect, 2 grpc, 3 grpc-web
-	Compression int32  `json:"compression"` // 1 identity, 2 gzip, 3 br, 4 zstd, 5 deflate, 6 snappy
-	Stream      string `json:"stream"`      // unary | clientstream (server side only)
-	Delta       int64  `json:"delta"`       // message size - limit
+	Side        string `json:"side"`           // server | client: whose receive limit is tested
+	Mode        string `json:"mode,omitempty"` // ref (default) | plain: the peer under test runs in reference mode or not
+	Peer        string `json:"peer,omitempty"` // client side: refserver (default; unary only) | fixture
+	Protocol    int32  `json:"protocol"`       // 1 connect, 2 grpc, 3 grpc-web
+	Compression int32  `json:"compression"`    // 1 identity, 2 gzip, 3 br, 4 zstd, 5 deflate, 6 snappy
+	HTTP        int32  `json:"http,omitempty"` // 1 | 2 (default 2, cleartext)
+	Stream      string `json:"stream"`         // unary | idempotent | serverstream | clientstream | halfbidi | fullbidi
+	N           int    `json:"n,omitempty"`    // messages in the tested direction (default 1)
+	Pos         int    `json:"pos,omitempty"`  // index of the message under the limit test
+	Limit       int64  `json:"limit,omitempty"`
+	Delta       int64  `json:"delta"` // message size - limit
 }
 
 type c19SharpOut struct {
 	Limit   int64  `json:"limit"`
 	Size    int64  `json:"size"`    // uncompressed size of the message the limit applies to
 	Outcome string `json:"outcome"` // ok | resource_exhausted | code:N | internal
-	Detail  string `json:"detail,omitempty"`
+	// what the receiving side handed on when it accepted: number of messages of the tested
+	// direction that arrived, and the size of the one at Pos (0 if it is not there)
+	Got    int    `json:"got"`
+	Echo   int64  `json:"echo"`
+	Detail string `json:"detail,omitempty"`
 }
 
-type c19Peers struct {
-	mu       sync.Mutex
-	err      error
-	host     string
-	port     uint32
-	toClient io.WriteCloser
-	fromCl   io.ReadCloser
-	seq      int
+func c19Mode(m string) string {
+	if m == "" {
+		return "ref"
+	}
+	return m
 }
-
-var c19PeersOnce sync.Once
-var c19P c19Peers
 
 type c19NopCloser struct{ io.Writer }
 
 func (c19NopCloser) Close() error { return nil }
 
-func c19StartPeers() {
+// ---- peers ---------------------------------------------------------------------------
+
+type c19Server struct {
+	once sync.Once
+	err  error
+	host string
+	port uint32
+}
+
+type c19Client struct {
+	err      error
+	toClient io.WriteCloser
+	fromCl   io.ReadCloser
+}
+
+type c19ClientPool struct {
+	once sync.Once
+	free chan *c19Client
+}
+
+const c19PoolSize = 4
+
+var (
+	c19Servers = map[string]*c19Server{"ref": {}, "plain": {}, "fixture": {}}
+	c19Clients = map[string]*c19ClientPool{"ref": {}, "plain": {}}
+	c19Seq     atomic.Int64
+)
+
+func (s *c19Server) start(kind string) {
+	if kind == "fixture" {
+		s.host, s.port, s.err = c19StartFixture()
+		return
+	}
 	ctx := context.Background()
-	// reference server
 	sin, sinW := io.Pipe()
 	soutR, sout := io.Pipe()
 	go func() {
-		err := referenceserver.RunInReferenceMode(ctx, []string{"referenceserver", "-port", "0", "-bind", "127.0.0.1"}, sin, sout, c19NopCloser{io.Discard}, nil)
+		var err error
+		args := []string{"referenceserver", "-port", "0", "-bind", "127.0.0.1"}
+		if kind == "ref" {
+			err = referenceserver.RunInReferenceMode(ctx, args, sin, sout, c19NopCloser{io.Discard}, nil)
+		} else {
+			err = referenceserver.Run(ctx, args, sin, sout, c19NopCloser{io.Discard})
+		}
 		sout.CloseWithError(fmt.Errorf("reference server ended: %v", err))
 	}()
 	go func() {
 		_ = internal.WriteDelimitedMessage(sinW, &conformancev1.ServerCompatRequest{
 			Protocol:            conformancev1.Protocol_PROTOCOL_CONNECT,
-			HttpVersion:         conformancev1.HTTPVersion_HTTP_VERSION_2,
-			MessageReceiveLimit: uint32(cc.VerifC19ServerReceiveLimit()),
+			HttpVersion:         conformancev1.HTTPVersion_HTTP_VERSION_2, // cleartext: serves HTTP/1.1 and h2c
+			MessageReceiveLimit: uint32(cc.VerifC19ServerReceiveLimit()),  // as runTestCasesForServer does
 		})
 		sinW.Close()
 	}()
 	var resp conformancev1.ServerCompatResponse
 	if err := internal.ReadDelimitedMessage(soutR, &resp, "reference server", 20*time.Second, 1<<20); err != nil {
-		c19P.err = err
+		s.err = err
 		return
 	}
-	c19P.host, c19P.port = resp.Host, resp.Port
-	// reference client
+	s.host, s.port = resp.Host, resp.Port
+}
+
+func c19ServerAddr(kind string) (string, uint32, error) {
+	s := c19Servers[kind]
+	if s == nil {
+		return "", 0, fmt.Errorf("server kind %q?", kind)
+	}
+	s.once.Do(func() { s.start(kind) })
+	return s.host, s.port, s.err
+}
+
+func c19NewClient(kind string) *c19Client {
 	cin, cinW := io.Pipe()
 	coutR, cout := io.Pipe()
 	go func() {
-		err := referenceclient.RunInReferenceMode(ctx, []string{"referenceclient"}, cin, cout, c19NopCloser{io.Discard}, nil)
+		var err error
+		if kind == "ref" {
+			err = referenceclient.RunInReferenceMode(context.Background(), []string{"referenceclient"}, cin, cout, c19NopCloser{io.Discard}, nil)
+		} else {
+			err = referenceclient.Run(context.Background(), []string{"referenceclient"}, cin, cout, c19NopCloser{io.Discard})
+		}
 		cout.CloseWithError(fmt.Errorf("reference client ended: %v", err))
 	}()
-	c19P.toClient, c19P.fromCl = cinW, coutR
+	return &c19Client{toClient: cinW, fromCl: coutR}
 }
 
-// c19Call sends one request through the reference client and returns its result.
-func c19Call(req *conformancev1.ClientCompatRequest) (*conformancev1.ClientResponseResult, error) {
-	c19PeersOnce.Do(c19StartPeers)
-	c19P.mu.Lock()
-	defer c19P.mu.Unlock()
-	if c19P.err != nil {
-		return nil, c19P.err
+func (p *c19ClientPool) start(kind string) {
+	p.free = make(chan *c19Client, c19PoolSize)
+	for i := 0; i < c19PoolSize; i++ {
+		p.free <- c19NewClient(kind)
 	}
-	c19P.seq++
-	req.TestName = fmt.Sprintf("verif/c19/%08d", c19P.seq) // fixed width: the name is echoed in the response
-	req.Host, req.Port = c19P.host, c19P.port
+}
+
+// c19Call sends one request through a reference client of the given kind to the server of
+// the given kind and returns its result.
+func c19Call(clientKind, serverKind string, req *conformancev1.ClientCompatRequest) (*conformancev1.ClientResponseResult, error) {
+	host, port, err := c19ServerAddr(serverKind)
+	if err != nil {
+		return nil, err
+	}
+	pool := c19Clients[clientKind]
+	if pool == nil {
+		return nil, fmt.Errorf("client kind %q?", clientKind)
+	}
+	pool.once.Do(func() { pool.start(clientKind) })
+	cl := <-pool.free
+	defer func() {
+		if cl.err != nil {
+			// a client that did not answer is abandoned (its input is closed, which ends it once
+			// the stuck call returns), so that one failure does not spoil the calls after it
+			_ = cl.toClient.Close()
+			cl = c19NewClient(clientKind)
+		}
+		pool.free <- cl
+	}()
+	req.TestName = fmt.Sprintf("verif/c19/%08d", c19Seq.Add(1)) // fixed width: the name is echoed in the response
+	req.Host, req.Port = host, port
 	req.RequestHeaders = []*conformancev1.Header{{Name: "x-test-case-name", Value: []string{req.TestName}}} // as the runner does
-	req.HttpVersion = conformancev1.HTTPVersion_HTTP_VERSION_2
+	if req.HttpVersion == 0 {
+		req.HttpVersion = conformancev1.HTTPVersion_HTTP_VERSION_2
+	}
 	req.Codec = conformancev1.Codec_CODEC_PROTO
 	errc := make(chan error, 1)
-	go func() { errc <- internal.WriteDelimitedMessage(c19P.toClient, req) }()
+	go func() { errc <- internal.WriteDelimitedMessage(cl.toClient, req) }()
 	var resp conformancev1.ClientCompatResponse
-	if err := internal.ReadDelimitedMessage(c19P.fromCl, &resp, "reference client", 60*time.Second, 64<<20); err != nil {
-		c19P.err = err
+	if err := internal.ReadDelimitedMessage(cl.fromCl, &resp, "reference client", 30*time.Second, 64<<20); err != nil {
+		cl.err = err
 		return nil, err
 	}
 	if err := <-errc; err != nil {
-		c19P.err = err
+		cl.err = err
 		return nil, err
 	}
 	if resp.TestName != req.TestName {
@@ -141,96 +234,460 @@ func c19Outcome(res *conformancev1.ClientResponseResult) string {
 	return fmt.Sprintf("code:%d", int32(res.GetError().GetCode()))
 }
 
-func c19Sharp(in c19SharpIn) c19SharpOut {
-	svc := "connectrpc.conformance.v1.ConformanceService"
-	req := &conformancev1.ClientCompatRequest{
-		Protocol:    conformancev1.Protocol(in.Protocol),
-		Compression: conformancev1.Compression(in.Compression),
-		Service:     &svc,
+// ---- fixture server (client side: responses of chosen sizes at chosen positions) -----------
+
+// c19Fixture answers with exactly the response_data of the first request's definition, one
+// response message per item (Payload.Data only: no request echo, so the sizes are those the
+// harness chose). Full-duplex bidi: one response per request while there are requests, the
+// rest after the client's half-close.
+type c19Fixture struct {
+	conformancev1connect.UnimplementedConformanceServiceHandler
+}
+
+func c19Payload(d []byte) *conformancev1.ConformancePayload {
+	return &conformancev1.ConformancePayload{Data: d}
+}
+
+func (c19Fixture) Unary(_ context.Context, req *connect.Request[conformancev1.UnaryRequest]) (*connect.Response[conformancev1.UnaryResponse], error) {
+	return connect.NewResponse(&conformancev1.UnaryResponse{Payload: c19Payload(req.Msg.GetResponseDefinition().GetResponseData())}), nil
+}
+
+func (c19Fixture) IdempotentUnary(_ context.Context, req *connect.Request[conformancev1.IdempotentUnaryRequest]) (*connect.Response[conformancev1.IdempotentUnaryResponse], error) {
+	return connect.NewResponse(&conformancev1.IdempotentUnaryResponse{Payload: c19Payload(req.Msg.GetResponseDefinition().GetResponseData())}), nil
+}
+
+func (c19Fixture) ClientStream(_ context.Context, stream *connect.ClientStream[conformancev1.ClientStreamRequest]) (*connect.Response[conformancev1.ClientStreamResponse], error) {
+	var def *conformancev1.UnaryResponseDefinition
+	first := true
+	for stream.Receive() {
+		if first {
+			def, first = stream.Msg().GetResponseDefinition(), false
+		}
 	}
+	if err := stream.Err(); err != nil {
+		return nil, err
+	}
+	return connect.NewResponse(&conformancev1.ClientStreamResponse{Payload: c19Payload(def.GetResponseData())}), nil
+}
+
+func (c19Fixture) ServerStream(_ context.Context, req *connect.Request[conformancev1.ServerStreamRequest], stream *connect.ServerStream[conformancev1.ServerStreamResponse]) error {
+	for _, d := range req.Msg.GetResponseDefinition().GetResponseData() {
+		if err := stream.Send(&conformancev1.ServerStreamResponse{Payload: c19Payload(d)}); err != nil {
+			return err
+		}
+	}
+	return nil
+}
+
+func (c19Fixture) BidiStream(_ context.Context, stream *connect.BidiStream[conformancev1.BidiStreamRequest, conformancev1.BidiStreamResponse]) error {
+	var data [][]byte
+	full, first, sent := false, true, 0
+	for {
+		req, err := stream.Receive()
+		if errors.Is(err, io.EOF) {
+			break
+		}
+		if err != nil {
+			return err
+		}
+		if first {
+			data, full, first = req.GetResponseDefinition().GetResponseData(), req.GetFullDuplex(), false
+		}
+		if full && sent < len(data) {
+			if err := stream.Send(&conformancev1.BidiStreamResponse{Payload: c19Payload(data[sent])}); err != nil {
+				return err
+			}
+			sent++
+		}
+	}
+	for ; sent < len(data); sent++ {
+		if err := stream.Send(&conformancev1.BidiStreamResponse{Payload: c19Payload(data[sent])}); err != nil {
+			return err
+		}
+	}
+	return nil
+}
+
+func c19StartFixture() (string, uint32, error) {
+	mux := http.NewServeMux()
+	mux.Handle(conformancev1connect.NewConformanceServiceHandler(c19Fixture{},
+		connect.WithCompression(compression.Brotli, compression.NewBrotliDecompressor, compression.NewBrotliCompressor),
+		connect.WithCompression(compression.Deflate, compression.NewDeflateDecompressor, compression.NewDeflateCompressor),
+		connect.WithCompression(compression.Snappy, compression.NewSnappyDecompressor, compression.NewSnappyCompressor),
+		connect.WithCompression(compression.Zstd, compression.NewZstdDecompressor, compression.NewZstdCompressor),
+	))
+	handler := http.Handler(http.HandlerFunc(func(w http.ResponseWriter, r *http.Request) {
+		if strings.HasSuffix(r.URL.Path, conformancev1connect.ConformanceServiceBidiStreamProcedure) && r.ProtoMajor == 1 {
+			r.ProtoMajor, r.ProtoMinor = 2, 0 // half-duplex bidi over HTTP/1.1, as the reference server allows
+		}
+		mux.ServeHTTP(w, r)
+	}))
+	lis, err := net.Listen("tcp", "127.0.0.1:0")
+	if err != nil {
+		return "", 0, err
+	}
+	srv := &http.Server{Handler: h2c.NewHandler(handler, &http2.Server{}), ReadHeaderTimeout: 5 * time.Second}
+	go func() { _ = srv.Serve(lis) }()
+	addr, ok := lis.Addr().(*net.TCPAddr)
+	if !ok {
+		return "", 0, fmt.Errorf("listener address %v", lis.Addr())
+	}
+	return "127.0.0.1", uint32(addr.Port), nil
+}
+
+// ---- the operation ------------------------------------------------------------------------------
+
+var c19StreamTypes = map[string]struct {
+	method string
+	typ    conformancev1.StreamType
+}{
+	"unary":        {"Unary", conformancev1.StreamType_STREAM_TYPE_UNARY},
+	"idempotent":   {"IdempotentUnary", conformancev1.StreamType_STREAM_TYPE_UNARY},
+	"serverstream": {"ServerStream", conformancev1.StreamType_STREAM_TYPE_SERVER_STREAM},
+	"clientstream": {"ClientStream", conformancev1.StreamType_STREAM_TYPE_CLIENT_STREAM},
+	"halfbidi":     {"BidiStream", conformancev1.StreamType_STREAM_TYPE_HALF_DUPLEX_BIDI_STREAM},
+	"fullbidi":     {"BidiStream", conformancev1.StreamType_STREAM_TYPE_FULL_DUPLEX_BIDI_STREAM},
+}
+
+// c19Requests builds nReq request messages of the stream kind; the first carries a response
+// definition asking for the given response data.
+func c19Requests(stream string, nReq int, respData [][]byte) ([]*anypb.Any, error) {
+	var msgs []*anypb.Any
+	if len(respData) == 0 {
+		respData = [][]byte{[]byte("test response")}
+	}
+	udef := &conformancev1.UnaryResponseDefinition{Response: &conformancev1.UnaryResponseDefinition_ResponseData{ResponseData: respData[0]}}
+	sdef := &conformancev1.StreamResponseDefinition{ResponseData: respData}
+	for i := 0; i < nReq; i++ {
+		var m proto.Message
+		data := []byte(fmt.Sprintf("request %d", i))
+		switch stream {
+		case "unary":
+			m = &conformancev1.UnaryRequest{ResponseDefinition: udef, RequestData: data}
+		case "idempotent":
+			m = &conformancev1.IdempotentUnaryRequest{ResponseDefinition: udef, RequestData: data}
+		case "serverstream":
+			m = &conformancev1.ServerStreamRequest{ResponseDefinition: sdef, RequestData: data}
+		case "clientstream":
+			r := &conformancev1.ClientStreamRequest{RequestData: data}
+			if i == 0 {
+				r.ResponseDefinition = udef
+			}
+			m = r
+		case "halfbidi", "fullbidi":
+			r := &conformancev1.BidiStreamRequest{RequestData: data}
+			if i == 0 {
+				r.ResponseDefinition, r.FullDuplex = sdef, stream == "fullbidi"
+			}
+			m = r
+		default:
+			return nil, fmt.Errorf("stream %q?", stream)
+		}
+		a, err := anypb.New(m)
+		if err != nil {
+			return nil, err
+		}
+		msgs = append(msgs, a)
+	}
+	return msgs, nil
+}
+
+// c19ResponseOfSize returns data such that the response message of the stream kind carrying
+// it has exactly the given size.
+func c19ResponseOfSize(stream string, size int64) ([]byte, error) {
+	mk := func(d []byte) proto.Message {
+		switch stream {
+		case "unary":
+			return &conformancev1.UnaryResponse{Payload: c19Payload(d)}
+		case "idempotent":
+			return &conformancev1.IdempotentUnaryResponse{Payload: c19Payload(d)}
+		case "clientstream":
+			return &conformancev1.ClientStreamResponse{Payload: c19Payload(d)}
+		case "serverstream":
+			return &conformancev1.ServerStreamResponse{Payload: c19Payload(d)}
+		}
+		return &conformancev1.BidiStreamResponse{Payload: c19Payload(d)}
+	}
+	for l := size; l >= 0 && l >= size-24; l-- {
+		d := make([]byte, l)
+		if int64(proto.Size(mk(d))) == size {
+			return d, nil
+		}
+	}
+	return nil, fmt.Errorf("no response of %d bytes", size)
+}
+
+func c19Sharp(in c19SharpIn) c19SharpOut {
 	fail := func(err error) c19SharpOut {
 		return c19SharpOut{Outcome: "internal", Detail: strings.SplitN(err.Error(), "\n", 2)[0]}
 	}
+	st, ok := c19StreamTypes[in.Stream]
+	if !ok {
+		return fail(fmt.Errorf("stream %q?", in.Stream))
+	}
+	n := in.N
+	if n <= 0 {
+		n = 1
+	}
+	if in.Pos < 0 || in.Pos >= n {
+		return fail(fmt.Errorf("pos %d of %d?", in.Pos, n))
+	}
+	mode := c19Mode(in.Mode)
+	svc := conformancev1connect.ConformanceServiceName
+	req := &conformancev1.ClientCompatRequest{
+		Protocol:    conformancev1.Protocol(in.Protocol),
+		Compression: conformancev1.Compression(in.Compression),
+		HttpVersion: conformancev1.HTTPVersion(in.HTTP),
+		Service:     &svc,
+		Method:      proto.String(st.method),
+		StreamType:  st.typ,
+	}
 	switch in.Side {
 	case "server":
-		limit := cc.VerifC19ServerReceiveLimit()
-		tc := &conformancev1.TestCase{Request: req}
-		def := &conformancev1.UnaryResponseDefinition{Response: &conformancev1.UnaryResponseDefinition_ResponseData{ResponseData: []byte("test response")}}
-		var sized int // index of the message under the limit test
-		if in.Stream == "clientstream" {
-			req.Method, req.StreamType = proto.String("ClientStream"), conformancev1.StreamType_STREAM_TYPE_CLIENT_STREAM
-			a1, _ := anypb.New(&conformancev1.ClientStreamRequest{ResponseDefinition: def, RequestData: []byte("first")})
-			a2, _ := anypb.New(&conformancev1.ClientStreamRequest{RequestData: []byte("second")})
-			req.RequestMessages = []*anypb.Any{a1, a2}
-			tc.ExpandRequests = []*conformancev1.TestCase_ExpandedSize{{}, {SizeRelativeToLimit: proto.Int32(int32(in.Delta))}}
-			sized = 1
-		} else {
-			req.Method, req.StreamType = proto.String("Unary"), conformancev1.StreamType_STREAM_TYPE_UNARY
-			a1, _ := anypb.New(&conformancev1.UnaryRequest{ResponseDefinition: def})
-			req.RequestMessages = []*anypb.Any{a1}
-			tc.ExpandRequests = []*conformancev1.TestCase_ExpandedSize{{SizeRelativeToLimit: proto.Int32(int32(in.Delta))}}
+		switch in.Stream {
+		case "unary", "idempotent", "serverstream":
+			if n != 1 {
+				return fail(fmt.Errorf("%s has one request", in.Stream))
+			}
 		}
+		limit := cc.VerifC19ServerReceiveLimit()
+		// one small response per request, so that a full-duplex exchange echoes every request
+		respData := make([][]byte, n)
+		for i := range respData {
+			respData[i] = []byte(fmt.Sprintf("response %d", i))
+		}
+		msgs, err := c19Requests(in.Stream, n, respData)
+		if err != nil {
+			return fail(err)
+		}
+		req.RequestMessages = msgs
+		tc := &conformancev1.TestCase{Request: req, ExpandRequests: make([]*conformancev1.TestCase_ExpandedSize, n)}
+		for i := range tc.ExpandRequests {
+			tc.ExpandRequests[i] = &conformancev1.TestCase_ExpandedSize{}
+		}
+		tc.ExpandRequests[in.Pos].SizeRelativeToLimit = proto.Int32(int32(in.Delta))
 		if err := cc.VerifC19ExpandRequestData(tc); err != nil {
 			return fail(err)
 		}
-		m, err := req.RequestMessages[sized].UnmarshalNew()
+		m, err := req.RequestMessages[in.Pos].UnmarshalNew()
 		if err != nil {
 			return fail(err)
 		}
-		res, err := c19Call(req)
+		res, err := c19Call("ref", mode, req)
 		if err != nil {
 			return fail(err)
 		}
-		return c19SharpOut{Limit: limit, Size: int64(proto.Size(m)), Outcome: c19Outcome(res)}
+		out := c19SharpOut{Limit: limit, Size: int64(proto.Size(m)), Outcome: c19Outcome(res)}
+		// what the handler received: the requests echoed in the payloads' request info
+		var echoed []*anypb.Any
+		for _, p := range res.GetPayloads() {
+			echoed = append(echoed, p.GetRequestInfo().GetRequests()...)
+		}
+		out.Got = len(echoed)
+		if in.Pos < len(echoed) {
+			if em, err := echoed[in.Pos].UnmarshalNew(); err == nil {
+				out.Echo = int64(proto.Size(em))
+			}
+		}
+		return out
 	case "client":
-		req.Method, req.StreamType = proto.String("Unary"), conformancev1.StreamType_STREAM_TYPE_UNARY
+		if in.Peer == "fixture" {
+			limit := in.Limit
+			if limit <= 0 {
+				limit = 4096
+			}
+			switch in.Stream {
+			case "unary", "idempotent", "clientstream":
+				if n != 1 {
+					return fail(fmt.Errorf("%s has one response", in.Stream))
+				}
+			}
+			respData := make([][]byte, n)
+			for i := range respData {
+				respData[i] = []byte(fmt.Sprintf("response %d", i))
+			}
+			sized, err := c19ResponseOfSize(in.Stream, limit+in.Delta)
+			if err != nil {
+				return fail(err)
+			}
+			respData[in.Pos] = sized
+			nReq := 1
+			switch in.Stream {
+			case "clientstream", "halfbidi":
+				nReq = 2
+			case "fullbidi":
+				// fewer requests than responses: the last response is read after the half-close
+				if nReq = n - 1; nReq < 1 {
+					nReq = 1
+				}
+			}
+			msgs, err := c19Requests(in.Stream, nReq, respData)
+			if err != nil {
+				return fail(err)
+			}
+			req.RequestMessages = msgs
+			req.MessageReceiveLimit = uint32(limit)
+			res, err := c19Call(mode, "fixture", req)
+			if err != nil {
+				return fail(err)
+			}
+			out := c19SharpOut{Limit: limit, Size: limit + in.Delta, Outcome: c19Outcome(res), Got: len(res.GetPayloads())}
+			if in.Pos < len(res.GetPayloads()) {
+				out.Echo = c19RespSize(in.Stream, res.GetPayloads()[in.Pos])
+			}
+			return out
+		}
+		// the reference server as the peer: one response, measured by a call without a limit
+		if in.Stream != "unary" || n != 1 {
+			return fail(fmt.Errorf("client side against the reference server: unary only"))
+		}
 		def := &conformancev1.UnaryResponseDefinition{Response: &conformancev1.UnaryResponseDefinition_ResponseData{ResponseData: make([]byte, 3000)}}
 		a1, _ := anypb.New(&conformancev1.UnaryRequest{ResponseDefinition: def})
 		req.RequestMessages = []*anypb.Any{a1}
-		// measure the response without a limit
-		probe := proto.Clone(req).(*conformancev1.ClientCompatRequest)
-		res, err := c19Call(probe)
+		probe, _ := proto.Clone(req).(*conformancev1.ClientCompatRequest)
+		res, err := c19Call(mode, "ref", probe)
 		if err != nil {
 			return fail(err)
 		}
 		if len(res.GetPayloads()) != 1 {
 			return fail(fmt.Errorf("probe call: %d payloads, error %v", len(res.GetPayloads()), res.GetError()))
 		}
-		size := int64(proto.Size(&conformancev1.UnaryResponse{Payload: res.Payloads[0]}))
+		size := c19RespSize("unary", res.GetPayloads()[0])
 		limit := size - in.Delta
 		req.MessageReceiveLimit = uint32(limit)
-		res, err = c19Call(req)
+		res, err = c19Call(mode, "ref", req)
 		if err != nil {
 			return fail(err)
 		}
+		out := c19SharpOut{Limit: limit, Size: size, Outcome: c19Outcome(res), Got: len(res.GetPayloads())}
 		if len(res.GetPayloads()) == 1 {
 			// the message that actually passed the limit
-			size = int64(proto.Size(&conformancev1.UnaryResponse{Payload: res.Payloads[0]}))
+			out.Echo = c19RespSize("unary", res.GetPayloads()[0])
 		}
-		return c19SharpOut{Limit: limit, Size: size, Outcome: c19Outcome(res)}
+		return out
 	}
 	return fail(fmt.Errorf("side?"))
 }
 
+// c19RespSize is the size of the response message that carried the payload.
+func c19RespSize(stream string, p *conformancev1.ConformancePayload) int64 {
+	switch stream {
+	case "unary":
+		return int64(proto.Size(&conformancev1.UnaryResponse{Payload: p}))
+	case "idempotent":
+		return int64(proto.Size(&conformancev1.IdempotentUnaryResponse{Payload: p}))
+	case "clientstream":
+		return int64(proto.Size(&conformancev1.ClientStreamResponse{Payload: p}))
+	case "serverstream":
+		return int64(proto.Size(&conformancev1.ServerStreamResponse{Payload: p}))
+	}
+	return int64(proto.Size(&conformancev1.BidiStreamResponse{Payload: p}))
+}
+
+// ---- generator --------------------------------------------------------------------------
+
 func c19SharpGen(c *gen.Ctx) {
-	for _, side := range []string{"server", "client"} {
+	var ins []any
+	add := func(in c19SharpIn) { ins = append(ins, in) }
+	type shape struct {
+		stream string
+		n, pos int
+	}
+	// every position (first, middle, last) of the multi-message directions
+	reqShapes := []shape{{"unary", 1, 0}, {"idempotent", 1, 0}, {"serverstream", 1, 0},
+		{"clientstream", 3, 0}, {"clientstream", 3, 1}, {"clientstream", 3, 2},
+		{"halfbidi", 3, 0}, {"halfbidi", 3, 1}, {"halfbidi", 3, 2},
+		{"fullbidi", 3, 0}, {"fullbidi", 3, 1}, {"fullbidi", 3, 2}}
+	respShapes := []shape{{"unary", 1, 0}, {"idempotent", 1, 0}, {"clientstream", 1, 0},
+		{"serverstream", 3, 0}, {"serverstream", 3, 1}, {"serverstream", 3, 2},
+		{"halfbidi", 3, 0}, {"halfbidi", 3, 1}, {"halfbidi", 3, 2},
+		{"fullbidi", 3, 0}, {"fullbidi", 3, 1}, {"fullbidi", 3, 2}}
+	deltas := []int64{-1, 0, 1}
+	k := 0
+	for _, mode := range []string{"ref", "plain"} {
 		for protocol := int32(1); protocol <= 3; protocol++ {
+			for _, sh := range reqShapes {
+				for comp := int32(1); comp <= 6; comp++ {
+					// quick: identity and one rotating other compression per (mode, protocol, shape);
+					// thorough: all six
+					k++
+					if !c.Thorough() && comp != 1 && comp != int32(2+k%5) && !(sh.stream == "unary" && mode == "ref") {
+						continue
+					}
+					for _, delta := range deltas {
+						add(c19SharpIn{Side: "server", Mode: mode, Protocol: protocol, Compression: comp, Stream: sh.stream, N: sh.n, Pos: sh.pos, Delta: delta})
+					}
+				}
+			}
+			for _, sh := range respShapes {
+				if protocol == 2 && sh.stream == "fullbidi" && sh.pos != sh.n-1 {
+					// connect-go's gRPC client drains the response body before it returns a receive
+					// error; while the server of a full-duplex stream still waits for requests that
+					// never returns. Only the response read after the half-close is tested there.
+					continue
+				}
+				for comp := int32(1); comp <= 6; comp++ {
+					k++
+					if !c.Thorough() && comp != 1 && comp != int32(2+k%5) {
+						continue
+					}
+					for _, delta := range deltas {
+						add(c19SharpIn{Side: "client", Mode: mode, Peer: "fixture", Protocol: protocol, Compression: comp, Stream: sh.stream, N: sh.n, Pos: sh.pos, Delta: delta})
+					}
+				}
+			}
+			// the reference server as the client's peer
 			for comp := int32(1); comp <= 6; comp++ {
-				for delta := int64(-1); delta <= 1; delta++ {
-					c.Do("sharp", c19SharpIn{Side: side, Protocol: protocol, Compression: comp, Stream: "unary", Delta: delta})
-					if side == "server" && protocol != 3 && (c.Thorough() || comp%2 == 0) {
-						c.Do("sharp", c19SharpIn{Side: side, Protocol: protocol, Compression: comp, Stream: "clientstream", Delta: delta})
+				if mode == "plain" && !c.Thorough() && comp > 2 {
+					continue
+				}
+				for _, delta := range deltas {
+					add(c19SharpIn{Side: "client", Mode: mode, Protocol: protocol, Compression: comp, Stream: "unary", Delta: delta})
+				}
+			}
+		}
+		// HTTP/1.1 (Connect and gRPC-Web; no full duplex there)
+		for _, protocol := range []int32{1, 3} {
+			for _, comp := range []int32{1, 2, 4} {
+				if !c.Thorough() && comp == 4 {
+					continue
+				}
+				for _, delta := range deltas {
+					for _, sh := range reqShapes {
+						if sh.stream != "fullbidi" {
+							add(c19SharpIn{Side: "server", Mode: mode, HTTP: 1, Protocol: protocol, Compression: comp, Stream: sh.stream, N: sh.n, Pos: sh.pos, Delta: delta})
+						}
+					}
+					for _, sh := range respShapes {
+						if sh.stream != "fullbidi" {
+							add(c19SharpIn{Side: "client", Mode: mode, Peer: "fixture", HTTP: 1, Protocol: protocol, Compression: comp, Stream: sh.stream, N: sh.n, Pos: sh.pos, Delta: delta})
+						}
 					}
 				}
 			}
 		}
 	}
+	// the limit the runner really hands to clients
+	big := cc.VerifC19ClientReceiveLimit()
+	for _, sh := range respShapes {
+		if !c.Thorough() && sh.pos != sh.n-1 || sh.stream == "idempotent" {
+			continue // (the fixture is told the response data in the request: too large for a GET URL)
+		}
+		for _, delta := range deltas {
+			add(c19SharpIn{Side: "client", Peer: "fixture", Protocol: 1 + int32(len(ins)%3), Compression: 1 + int32(len(ins)%6), Stream: sh.stream, N: sh.n, Pos: sh.pos, Limit: big, Delta: delta})
+		}
+	}
 	if c.Thorough() {
 		for _, delta := range []int64{-100, 2, 10, 1000} {
 			for comp := int32(1); comp <= 6; comp++ {
-				c.Do("sharp", c19SharpIn{Side: "server", Protocol: 1, Compression: comp, Stream: "unary", Delta: delta})
-				c.Do("sharp", c19SharpIn{Side: "client", Protocol: 2, Compression: comp, Stream: "unary", Delta: delta})
+				for _, mode := range []string{"ref", "plain"} {
+					add(c19SharpIn{Side: "server", Mode: mode, Protocol: 1, Compression: comp, Stream: "unary", Delta: delta})
+					add(c19SharpIn{Side: "server", Mode: mode, Protocol: 2, Compression: comp, Stream: "fullbidi", N: 3, Pos: int(comp) % 3, Delta: delta})
+					add(c19SharpIn{Side: "client", Mode: mode, Protocol: 2, Compression: comp, Stream: "unary", Delta: delta})
+					add(c19SharpIn{Side: "client", Mode: mode, Peer: "fixture", Protocol: 3, Compression: comp, Stream: "serverstream", N: 3, Pos: int(comp) % 3, Delta: delta})
+				}
 			}
 		}
 	}
+	c.DoParallel("sharp", ins, c19PoolSize)
 }
